@@ -482,3 +482,102 @@ Proof.
       destruct sb; [apply repeat_spec in Hc; subst; reflexivity | contradiction].
   - rewrite !app_length, repeat_length. cbn [length]. destruct sb; [rewrite repeat_length|]; cbn [length]; lia.
 Qed.
+
+(* ==== round 3 ========================================================================= *)
+
+(* ---- (transpose, dagger) through the 1D dispatcher -------------------------------------- *)
+(* every route except the sub-MPO route with a signature lacking `dagger` applies the
+   documented operator, for every mode, arity and flag pair *)
+Theorem route_options_sound nl c ng tr dg :
+  (dispatch_1d c ng = RNonlocal -> nl = true \/ dg = false) ->
+  gate_1d_op nl c ng tr dg = spec_op tr dg.
+Proof.
+  unfold gate_1d_op, route_opts. intros H.
+  destruct (dispatch_1d c ng) eqn:E.
+  - destruct tr, dg; reflexivity.
+  - destruct (H eq_refl) as [-> | ->]; destruct tr; try destruct dg; reflexivity.
+  - destruct tr, dg; reflexivity.
+Qed.
+
+(* ... and on that route, without the parameter, dagger=True is NOT the documented operator
+   (plain G, or G^T together with transpose) *)
+Theorem nonlocal_dagger_refuted c ng tr :
+  dispatch_1d c ng = RNonlocal ->
+  gate_1d_op false c ng tr true = (if tr then OpGT else OpG) /\ gate_1d_op false c ng tr true <> spec_op tr true.
+Proof.
+  unfold gate_1d_op, route_opts. intros ->. destruct tr; cbn; split; try reflexivity; discriminate.
+Qed.
+
+(* ---- MPO sandwich with automatic swaps: options reach every split ----------------------- *)
+Theorem sandwich_auto_swap_forwards_options (O : Type) i j user sb (o : O) :
+  Forall (fun c => c = (sandwich_absorb_left i j user, o)) (sandwich_auto_swap_splits i j user sb o)
+  /\ length (sandwich_auto_swap_splits i j user sb o)
+     = let d := Nat.max i j - Nat.min i j - 1 in if sb then 2 * d + 1 else d + 1.
+Proof.
+  unfold sandwich_auto_swap_splits.
+  assert (Hd : ap_hi (auto_swap_plan i j) - ap_lo (auto_swap_plan i j) - 1 = Nat.max i j - Nat.min i j - 1).
+  { unfold auto_swap_plan. destruct (j <? i) eqn:E; cbn; [apply Nat.ltb_lt in E | apply Nat.ltb_ge in E]; lia. }
+  rewrite Hd. set (d := Nat.max i j - Nat.min i j - 1). split.
+  - apply Forall_forall. intros c Hc. apply in_app_or in Hc. destruct Hc as [Hc|Hc].
+    + apply repeat_spec in Hc. exact Hc.
+    + apply in_app_or in Hc. destruct Hc as [[<-|[]]|Hc]; [reflexivity|].
+      destruct sb; [apply repeat_spec in Hc; exact Hc | contradiction].
+  - rewrite !app_length, repeat_length. cbn [length]. destruct sb; [rewrite repeat_length|]; cbn [length]; lia.
+Qed.
+
+(* ---- labels of the lazily attached split gate ------------------------------------------- *)
+Lemma fresh_two tn i0 i1 : fresh_labels tn [i0; i1] = [fresh_base tn [i0; i1]; S (fresh_base tn [i0; i1])].
+Proof. reflexivity. Qed.
+
+(* label occurrences: those of the un-split lazy gate, plus the bond label twice *)
+Theorem split_gate_occ sw bond tn i0 i1 x :
+  occ x (split_gate_labels sw bond tn i0 i1)
+  = occ x (gate_lazy_labels false tn [i0; i1]) + (if Nat.eqb x bond then 2 else 0).
+Proof.
+  unfold occ, split_gate_labels, gate_lazy_labels, gate_labels. rewrite fresh_two.
+  set (b0 := fresh_base tn [i0; i1]).
+  cbn [nth concat app]. rewrite !count_app.
+  set (rest := count_occ Nat.eq_dec (concat (map (map (rename [i0; i1] [b0; S b0])) tn)) x).
+  destruct (Nat.eqb x bond) eqn:E; [apply Nat.eqb_eq in E | apply Nat.eqb_neq in E];
+    destruct sw; cbn [count_occ];
+    repeat match goal with |- context [Nat.eq_dec ?a ?b] => destruct (Nat.eq_dec a b) end;
+    try lia; subst; try contradiction; try lia.
+Qed.
+
+(* with a bond label that occurs nowhere else the set of outer labels is exactly preserved *)
+Theorem split_gate_outer_preserved sw bond tn i0 i1 x :
+  i0 <> i1 -> occ i0 tn = 1 -> occ i1 tn = 1 ->
+  occ bond tn = 0 -> bond <> i0 -> bond <> i1 -> ~ In bond (fresh_labels tn [i0; i1]) ->
+  is_outer (split_gate_labels sw bond tn i0 i1) x = is_outer tn x.
+Proof.
+  intros Hne H0 H1 Hb Hb0 Hb1 Hbf.
+  assert (Hnd : NoDup [i0; i1]).
+  { constructor; [intros [H|[]]; congruence | constructor; [intros []|constructor]]. }
+  assert (Hone : forall i, In i [i0; i1] -> occ i tn = 1) by (intros i [<-|[<-|[]]]; assumption).
+  unfold is_outer at 1. rewrite split_gate_occ.
+  destruct (Nat.eqb x bond) eqn:E.
+  - apply Nat.eqb_eq in E. subst x.
+    destruct (gate_lazy_occ false tn [i0; i1] bond Hnd Hone) as [_ [_ H3]].
+    rewrite H3; [| intros [H|[H|[]]]; congruence | exact Hbf].
+    unfold is_outer. rewrite Hb. reflexivity.
+  - rewrite Nat.add_0_r. apply (gate_outer_preserved false tn [i0; i1] x Hnd Hone).
+Qed.
+
+(* a FIXED bond name is not sound: if the network already has an open label of that name
+   (not a target), the label is no longer open after gating *)
+Theorem split_gate_fixed_bond_refuted sw bond tn i0 i1 :
+  i0 <> i1 -> occ i0 tn = 1 -> occ i1 tn = 1 ->
+  occ bond tn = 1 -> bond <> i0 -> bond <> i1 ->
+  is_outer tn bond = true /\ is_outer (split_gate_labels sw bond tn i0 i1) bond = false.
+Proof.
+  intros Hne H0 H1 Hb Hb0 Hb1.
+  assert (Hnd : NoDup [i0; i1]).
+  { constructor; [intros [H|[]]; congruence | constructor; [intros []|constructor]]. }
+  assert (Hone : forall i, In i [i0; i1] -> occ i tn = 1) by (intros i [<-|[<-|[]]]; assumption).
+  split; [unfold is_outer; rewrite Hb; reflexivity|].
+  unfold is_outer. rewrite split_gate_occ, Nat.eqb_refl.
+  destruct (gate_lazy_occ false tn [i0; i1] bond Hnd Hone) as [_ [_ H3]].
+  rewrite H3, Hb; [reflexivity | intros [H|[H|[]]]; congruence |].
+  intros Hf. destruct (fresh_is_fresh tn [i0; i1] bond Hf) as [Hnc _].
+  unfold occ in Hb. rewrite (proj1 (count_occ_not_In Nat.eq_dec (concat tn) bond) Hnc) in Hb. discriminate.
+Qed.
